@@ -20,9 +20,13 @@
    validated numerically only by harness/c07.py on the actual entry points:
    effective degree <-> compact effective degree <-> EBCM (multinomial change
    of variables), prefmix_uncorrelated (2-D / dict-based code, not translated),
-   the heterogeneous pairwise, pair-based and individual-based reductions (2-D
-   and node-level systems, not translated), and the matching of the wrappers' initial conditions. *)
-From EoNV Require Import Prelude Vec VecP Aux Rhs Rhs7P.
+   and the matching of the wrappers' initial conditions.  The heterogeneous
+   pairwise, pair-based and individual-based regular-graph reductions are proved
+   in the second part of this file over the hand-written models of Model/Rhs2D.v
+   -- which the last part (theorems C07_generated_...) proves equal to the definitions
+   regenerated from the source on every run (Gen/Rhs2.v, translate/rhs2d2v.py) --
+   against the GENERATED homogeneous mean-field / homogeneous pairwise right-hand sides. *)
+From EoNV Require Import Prelude Graph Vec VecP Aux Rhs Rhs7P Rhs2D Rhs2DP Rhs2 Rhs2GenP.
 
 (* ---- regular graphs: single degree class k, Phi o rhs_big = rhs_small o Phi ---- *)
 (* heterogeneous mean-field SIS on the invariant subspace {S_j = I_j = 0, j <> k}
@@ -128,3 +132,158 @@ Print Assumptions C07_ebcm_to_super_compact_partial.
 Print Assumptions C07_compact_to_super_compact_partial.
 Print Assumptions C07_nonvacuous_lump.
 Print Assumptions C07_nonvacuous_moments.
+
+
+(* ====================================================================== *)
+(* regular-graph reductions of the node-level and 2-D systems              *)
+(* (big systems: Model/Rhs2D.v; small systems: Gen/Rhs.v; proofs: Rhs2DP.v) *)
+(* ====================================================================== *)
+(* Setting: `ib_regularb G nodelist idx d` / `pb_regularb G nodelist idx d` (boolean, Proofs/Rhs2DP.v): every node of
+   nodelist has exactly d neighbours, each with an index inside the state vector; for the pair-based system also:
+   adjacency lists duplicate-free, idx inverts nodelist on neighbours, adjacency symmetric (simple undirected
+   d-regular graph).  Uniform rates tr == tau, rc == g.  Symmetric subspace: all X_i equal, all Y_i equal, and for
+   the pair-based system <X_i Y_j> = p, <X_i X_j> = q on every edge (`pbSIR_uniform`, `pbSIS_uniform`).
+   Each theorem has two parts: (1) the big right-hand side at a symmetric state is again symmetric (the subspace is
+   invariant), with the stated common values; (2) Phi o rhs_big = rhs_small o Phi, Phi the aggregation map that the
+   wrappers' outputs use (S = sum X_i, I = sum Y_i, [SI] = sum_i sum_{j ~ i} <X_i Y_j>, [SS] likewise), n = d.
+   The lift to curves is ODE uniqueness (cited). *)
+
+(* (a) individual-based  ->  homogeneous mean-field, n_over_N = d / N *)
+Theorem C07_lump_SIS_individual_based_regular : forall G nodelist idx tr rc d tau g y Y t,
+  ib_regularb G nodelist idx d = true -> (forall u v, tr u v == tau) -> (forall u, rc u == g) ->
+  (forall k, (k < nN nodelist)%nat -> vnth k Y == y) -> ~ Qnat (nN nodelist) == 0 ->
+  let D := dSIS_individual_based G nodelist idx tr rc Y t in
+  let small := dSIS_homogeneous_meanfield [sumn (nN nodelist) (fun k => 1 - vnth k Y); sumn (nN nodelist) (fun k => vnth k Y)]
+                                          t (Qnat d / Qnat (nN nodelist)) tau g in
+  (forall k, (k < nN nodelist)%nat -> vnth k D == tau * Qnat d * (1 - y) * y - g * y) /\
+  veq [sumn (nN nodelist) (fun k => - vnth k D); sumn (nN nodelist) (fun k => vnth k D)] small.
+Proof. exact ibSIS_lump. Qed.
+Theorem C07_lump_SIR_individual_based_regular : forall G nodelist idx tr rc d tau g x y V t,
+  ib_regularb G nodelist idx d = true -> (forall u v, tr u v == tau) -> (forall u, rc u == g) ->
+  (forall k, (k < nN nodelist)%nat -> vnth k V == x /\ vnth (nN nodelist + k) V == y) -> ~ Qnat (nN nodelist) == 0 ->
+  let D := dSIR_individual_based G nodelist idx tr rc V t in
+  let small := dSIR_homogeneous_meanfield [sumn (nN nodelist) (fun k => vnth k V); sumn (nN nodelist) (fun k => vnth (nN nodelist + k) V)]
+                                          t (Qnat d / Qnat (nN nodelist)) tau g in
+  (forall k, (k < nN nodelist)%nat ->
+     vnth k D == - (tau * Qnat d * x * y) /\ vnth (nN nodelist + k) D == tau * Qnat d * x * y - g * y) /\
+  veq [sumn (nN nodelist) (fun k => vnth k D); sumn (nN nodelist) (fun k => vnth (nN nodelist + k) D)] small.
+Proof. exact ibSIR_lump. Qed.
+
+(* (b) pair-based  ->  homogeneous pairwise, n = d.  x <> 0 (resp. 1 - y <> 0): the code replaces 1/X_i by 0 at X_i = 0 *)
+Theorem C07_lump_SIR_pair_based_regular : forall G nodelist idx tr rc d tau g x y p q V t,
+  pb_regularb G nodelist idx d = true -> (forall u v, tr u v == tau) -> (forall u, rc u == g) ->
+  pbSIR_uniform G nodelist V x y p q -> ~ x == 0 -> ~ Qnat (nN nodelist) == 0 -> ~ Qnat d == 0 ->
+  let D := dSIR_pair_based G nodelist idx tr rc V t in
+  let Phi := fun W => [sumn (nN nodelist) (prX W); sumn (nN nodelist) (prY nodelist W);
+                       pb_pairs G nodelist idx (prXY nodelist W); pb_pairs G nodelist idx (prXX nodelist W)] in
+  pbSIR_uniform G nodelist D (- (tau * Qnat d * p)) (tau * Qnat d * p - g * y)
+                (- (tau + g) * p + (Qnat d - 1) * tau * (q - p) * p * inv0 x) (- (2 * (Qnat d - 1) * tau * p * q * inv0 x)) /\
+  veq (Phi D) (dSIR_homogeneous_pairwise (Phi V) t (Qnat d) tau g).
+Proof. exact pbSIR_lump. Qed.
+(* SIS: the homogeneous pairwise state is (S, SI, SS) with S = sum (1 - Y_i), so dPhi (D) = (- sum dY_i, [dXY], [dXX]) *)
+Theorem C07_lump_SIS_pair_based_regular : forall G nodelist idx tr rc d tau g y p q V t,
+  pb_regularb G nodelist idx d = true -> (forall u v, tr u v == tau) -> (forall u, rc u == g) ->
+  pbSIS_uniform G nodelist V y p q -> ~ 1 - y == 0 -> ~ Qnat (nN nodelist) == 0 -> ~ Qnat d == 0 ->
+  let D := dSIS_pair_based G nodelist idx tr rc V t in
+  pbSIS_uniform G nodelist D (tau * Qnat d * p - g * y)
+                (- (tau + g) * p + g * (1 - 2 * p - q) + (Qnat d - 1) * tau * (q - p) * p * inv0 (1 - y))
+                (2 * g * p - 2 * (Qnat d - 1) * tau * p * q * inv0 (1 - y)) /\
+  veq [- sumn (nN nodelist) (psY D); pb_pairs G nodelist idx (psXY nodelist D); pb_pairs G nodelist idx (psXX nodelist D)]
+      (dSIS_homogeneous_pairwise [sumn (nN nodelist) (psX V); pb_pairs G nodelist idx (psXY nodelist V); pb_pairs G nodelist idx (psXX nodelist V)]
+                                 t (Qnat (nN nodelist)) (Qnat d) tau g).
+Proof. exact pbSIS_lump. Qed.
+
+(* (c) heterogeneous pairwise with the single degree class Ks = [k] (what *_heterogeneous_pairwise_from_graph builds on
+   a k-regular graph)  =  homogeneous pairwise with n = k, up to the order of the coordinates; together with
+   C07_lump_SIS/SIR_compact_pairwise_regular above this also identifies it with compact pairwise on that class.
+   k <> 0, S <> 0: no guard (kxSk[kxSk==0] = 1, tmpSk[tmpSk==0] = 1) fires. *)
+Theorem C07_lump_SIS_heterogeneous_pairwise_regular : forall S SS SI N k tau gamma t,
+  ~ k == 0 -> ~ S == 0 ->
+  let small := dSIS_homogeneous_pairwise [S; SI; SS] t N k tau gamma in
+  veq (dSIS_heterogeneous_pairwise [S; SS; SI] [N] [N * k] tau gamma [k] t) [vnth 0 small; vnth 2 small; vnth 1 small].
+Proof. exact hpSIS_single_class. Qed.
+Theorem C07_lump_SIR_heterogeneous_pairwise_regular : forall S I SS SI k tau gamma t,
+  ~ k == 0 -> ~ S == 0 ->
+  let small := dSIR_homogeneous_pairwise [S; I; SI; SS] t k tau gamma in
+  veq (dSIR_heterogeneous_pairwise [S; I; SS; SI] tau gamma [k] t) [vnth 0 small; vnth 1 small; vnth 3 small; vnth 2 small].
+Proof. exact hpSIR_single_class. Qed.
+
+(* (c') the same single class against compact pairwise on the classes 0..k (only class k occupied): composition of (c) with
+   C07_lump_SIS/SIR_compact_pairwise_regular.  SIR: compact pairwise carries R, heterogeneous pairwise I; with I = N - S - R
+   the R-component is -(dS + dI) of the heterogeneous system *)
+Theorem C07_lump_SIS_heterogeneous_to_compact_pairwise_regular : forall kk s SI SS N t tau g,
+  ~ Qnat kk == 0 -> ~ s == 0 ->
+  let hp := dSIS_heterogeneous_pairwise [s; SS; SI] [N] [N * Qnat kk] tau g [Qnat kk] t in
+  veq (dSIS_compact_pairwise (unitv kk s ++ [SI; SS]) t (unitv kk N) (N * Qnat kk) tau g)
+      (unitv kk (vnth 0 hp) ++ [vnth 2 hp; vnth 1 hp]).
+Proof. exact hp_to_compact_SIS. Qed.
+Theorem C07_lump_SIR_heterogeneous_to_compact_pairwise_regular : forall kk s SS SI R N t tau g,
+  ~ Qnat kk == 0 -> ~ s == 0 ->
+  let hp := dSIR_heterogeneous_pairwise [s; N - s - R; SS; SI] tau g [Qnat kk] t in
+  veq (dSIR_compact_pairwise (unitv kk s ++ [SS; SI; R]) t N tau g)
+      (unitv kk (vnth 0 hp) ++ [vnth 2 hp; vnth 3 hp; - (vnth 0 hp + vnth 1 hp)]).
+Proof. exact hp_to_compact_SIR. Qed.
+
+(* ---- non-vacuity: the triangle is 2-regular, carries symmetric states, and the field there is not zero ---- *)
+Example C07_nonvacuous_regular_graph :
+  pb_regularb tri_graph tri_nodes tri_idx 2 = true /\ ib_regularb tri_graph tri_nodes tri_idx 2 = true /\
+  pbSIR_uniform tri_graph tri_nodes (tri_V (1 # 2) (1 # 4) (1 # 8) (1 # 4)) (1 # 2) (1 # 4) (1 # 8) (1 # 4) /\
+  pbSIS_uniform tri_graph tri_nodes (tri_W (1 # 4) (1 # 8) (1 # 2)) (1 # 4) (1 # 8) (1 # 2) /\
+  ~ vnth 0 (dSIR_pair_based tri_graph tri_nodes tri_idx (fun _ _ => 1) (fun _ => 1) (tri_V (1 # 2) (1 # 4) (1 # 8) (1 # 4)) 0) == 0 /\
+  ~ vnth 8 (dSIR_pair_based tri_graph tri_nodes tri_idx (fun _ _ => 1) (fun _ => 1) (tri_V (1 # 2) (1 # 4) (1 # 8) (1 # 4)) 0) == 0.
+Proof.
+  split; [apply tri_regular|]. split; [apply tri_regular|]. split; [apply tri_uniform_SIR|]. split; [apply tri_uniform_SIS|].
+  split; intro H; vm_compute in H; discriminate.
+Qed.
+
+Print Assumptions C07_lump_SIS_individual_based_regular.
+Print Assumptions C07_lump_SIR_individual_based_regular.
+Print Assumptions C07_lump_SIR_pair_based_regular.
+Print Assumptions C07_lump_SIS_pair_based_regular.
+Print Assumptions C07_lump_SIS_heterogeneous_pairwise_regular.
+Print Assumptions C07_lump_SIR_heterogeneous_pairwise_regular.
+Print Assumptions C07_lump_SIS_heterogeneous_to_compact_pairwise_regular.
+Print Assumptions C07_lump_SIR_heterogeneous_to_compact_pairwise_regular.
+Print Assumptions C07_nonvacuous_regular_graph.
+
+(* ====================================================================== *)
+(* the hand-written models ARE the code: definitions generated from the    *)
+(* source on every run (Gen/Rhs2.v, translate/rhs2d2v.py, fail-closed)     *)
+(* equal the models of Model/Rhs2D.v that the theorems above are about     *)
+(* ====================================================================== *)
+(* Domain: shapes consistent (where numpy would raise nothing is claimed).  Pair based: `pb_wfb G nodelist idx`
+   (boolean) = G.order() = len(nodelist), index_of_node[nodelist[i]] = i, adjacency lists duplicate-free and inside
+   nodelist -- what every caller in analytic.py establishes (index_of_node = {node: i for i, node in
+   enumerate(nodelist)} over a simple graph); under it the code's accumulation `dA[index_of_node[u], ..] += ..`
+   over nested neighbour loops writes every cell from exactly one (u, v) and equals the closed form of the model. *)
+Theorem C07_generated_SIS_individual_based : forall Y t G nodelist idx tr rc,
+  length Y = length nodelist ->
+  veq (g_dSIS_individual_based Y t G nodelist idx tr rc) (dSIS_individual_based G nodelist idx tr rc Y t).
+Proof. exact gen_dSIS_individual_based. Qed.
+Theorem C07_generated_SIR_individual_based : forall V t G nodelist idx tr rc,
+  length V = (2 * length nodelist)%nat ->
+  veq (g_dSIR_individual_based V t G nodelist idx tr rc) (dSIR_individual_based G nodelist idx tr rc V t).
+Proof. exact gen_dSIR_individual_based. Qed.
+Theorem C07_generated_SIS_pair_based : forall G nodelist idx tr rc, pb_wfb G nodelist idx = true -> forall V t,
+  veq (g_dSIS_pair_based V t G nodelist idx tr rc) (dSIS_pair_based G nodelist idx tr rc V t).
+Proof. exact gen_dSIS_pair_based. Qed.
+Theorem C07_generated_SIR_pair_based : forall G nodelist idx tr rc, pb_wfb G nodelist idx = true -> forall V t,
+  veq (g_dSIR_pair_based V t G nodelist idx tr rc) (dSIR_pair_based G nodelist idx tr rc V t).
+Proof. exact gen_dSIR_pair_based. Qed.
+Theorem C07_generated_SIS_heterogeneous_pairwise : forall X t Nk NkNl tau gamma Ks,
+  length Nk = length Ks ->
+  veq (g_dSIS_heterogeneous_pairwise X t Nk NkNl tau gamma Ks) (dSIS_heterogeneous_pairwise X Nk NkNl tau gamma Ks t).
+Proof. exact gen_dSIS_heterogeneous_pairwise. Qed.
+Theorem C07_generated_SIR_heterogeneous_pairwise : forall X t tau gamma Nk Ks,
+  veq (g_dSIR_heterogeneous_pairwise X t tau gamma Nk Ks) (dSIR_heterogeneous_pairwise X tau gamma Ks t).
+Proof. exact gen_dSIR_heterogeneous_pairwise. Qed.
+(* non-vacuity of pb_wfb: the triangle with nodelist = its nodes and idx the position *)
+Example C07_generated_wf_nonvacuous : pb_wfb tri_graph tri_nodes tri_idx = true.
+Proof. vm_compute. reflexivity. Qed.
+Print Assumptions C07_generated_SIS_individual_based.
+Print Assumptions C07_generated_SIR_individual_based.
+Print Assumptions C07_generated_SIS_pair_based.
+Print Assumptions C07_generated_SIR_pair_based.
+Print Assumptions C07_generated_SIS_heterogeneous_pairwise.
+Print Assumptions C07_generated_SIR_heterogeneous_pairwise.
+Print Assumptions C07_generated_wf_nonvacuous.
